@@ -84,7 +84,11 @@ func streamWatch(t *testing.T, o *Out) {
 			}
 			evs = append(evs, e)
 		}
-		runWatchCase(t, o, fmt.Sprintf("w%d", i), kind, evs, r.Intn(3))
+		npre := 0
+		if r.Intn(2) == 0 {
+			npre = 1 + r.Intn(len(evs)-1)
+		}
+		runWatchCase(t, o, fmt.Sprintf("w%d", i), kind, evs, r.Intn(3), npre)
 	}
 }
 
@@ -100,7 +104,10 @@ func dedup(xs []string) []string {
 	return out
 }
 
-func runWatchCase(t *testing.T, o *Out, id, kind string, evs []watchEv, extIdx int) {
+// The first npre versions are written BEFORE the watcher starts (initial load of a
+// directory that already has files); the model sees them collapsed to the last
+// version per file, in file-name order.
+func runWatchCase(t *testing.T, o *Out, id, kind string, evs []watchEv, extIdx int, npre int) {
 	base := t.TempDir()
 	dir := filepath.Join(base, "ns")
 	if err := os.Mkdir(dir, 0o755); err != nil {
@@ -109,48 +116,54 @@ func runWatchCase(t *testing.T, o *Out, id, kind string, evs []watchEv, extIdx i
 	reg := driver.NewSqliteTestRegistry(t, false)
 	quiet(reg)
 	ctx := context.Background()
-	var err error
-	if kind == "o" {
-		err = reg.Config(ctx).Set(config.KeyNamespaces, map[string]any{"location": "file://" + dir})
-	} else {
-		err = reg.Config(ctx).Set(config.KeyNamespaces, "file://"+dir)
-	}
-	if err != nil {
-		t.Fatal(err)
-	}
-	nm, err := reg.Config(ctx).NamespaceManager()
-	if err != nil {
-		t.Fatal(err)
-	}
-	// sampler
+	var nm namespace.Manager
 	var mu sync.Mutex
 	seen := map[string]bool{}
 	var order []string
 	stop := make(chan struct{})
 	var wg sync.WaitGroup
-	wg.Add(1)
-	go func() {
-		defer wg.Done()
-		for {
-			select {
-			case <-stop:
-				return
-			default:
-			}
-			s := nsState(nm)
-			mu.Lock()
-			if !seen[s] {
-				seen[s] = true
-				order = append(order, s)
-			}
-			mu.Unlock()
-			time.Sleep(300 * time.Microsecond)
+	start := func() {
+		var err error
+		if kind == "o" {
+			err = reg.Config(ctx).Set(config.KeyNamespaces, map[string]any{"location": "file://" + dir})
+		} else {
+			err = reg.Config(ctx).Set(config.KeyNamespaces, "file://"+dir)
 		}
-	}()
+		if err != nil {
+			t.Fatal(err)
+		}
+		nm, err = reg.Config(ctx).NamespaceManager()
+		if err != nil {
+			t.Fatal(err)
+		}
+		// sampler
+		wg.Add(1)
+		go func() {
+			defer wg.Done()
+			for {
+				select {
+				case <-stop:
+					return
+				default:
+				}
+				s := nsState(nm)
+				mu.Lock()
+				if !seen[s] {
+					seen[s] = true
+					order = append(order, s)
+				}
+				mu.Unlock()
+				time.Sleep(300 * time.Microsecond)
+			}
+		}()
+	}
+	if npre == 0 {
+		start()
+	}
 	exts := []string{".json", ".yaml", ".toml"}
 	var payload strings.Builder
-	fmt.Fprintf(&payload, "%s %d", kind, len(evs))
-	for _, e := range evs {
+	fmt.Fprintf(&payload, "%s %d %d", kind, npre, len(evs))
+	for ei, e := range evs {
 		fmt.Fprintf(&payload, " %d %d %d", e.file, b2i(e.valid), len(e.names))
 		for _, nme := range e.names {
 			payload.WriteString(" " + S(nme))
@@ -193,6 +206,13 @@ func runWatchCase(t *testing.T, o *Out, id, kind string, evs []watchEv, extIdx i
 		}
 		if err := writeAtomic(dir, fname, []byte(content)); err != nil {
 			t.Fatal(err)
+		}
+		if ei < npre {
+			if ei == npre-1 {
+				start()
+			} else {
+				continue
+			}
 		}
 		// wait for quiescence: the state is stable for 120 ms (at most 2 s)
 		last, since := nsState(nm), time.Now()
